@@ -95,9 +95,6 @@ void Executor::op_modify(const Op& op, TaskCtx& t) {
   std::string kind = op.get("kind");
   bool rat = op.get("iface", "real") == "rat" && s.getInt(P::i("syncmode")) != 0;
   int form = (int)op.geti("form", 0);
-  // known finding (skip entry): the mpq_t array form of addColsRational writes past the row file (spxlpbase.h:935); it is demonstrated from its
-  // replay plan under ASan on every run of C06/C07, the workers use the LPColSetRational form instead
-  if (form == 1 && op.get("kind") == "addcols" && known_skip("C06", "sanitizer", {{"site", "spxlpbase.h:935"}})) form = 0;
   Rng r(mix((uint64_t)op.geti("s", 1), 0x40D));
   model::GenCfg gc; gc.fractions = rat;
   double inf = s.getReal(P::r("infty"));
